@@ -6,6 +6,7 @@ import copy
 import dataclasses
 import functools
 import io
+import json
 import math
 import os
 import pickle
@@ -31,12 +32,22 @@ MANIFEST = {
             "FlowField objects, and in parallel to a plain-tensor shadow of item ids. The items' grids follow a generated grid "
             "plan: distinct geometries (optionally rotated), or items that share geometry and differ only in align_corners, "
             "share one Grid object, hold equal-valued distinct Grid objects, or differ in one attribute by less than the "
-            "tolerance of Grid.__eq__. Whenever deepali returns one of its four types the grid count, grid shapes, per-entry "
-            "grid (as told by the shadow; size, center, spacing, direction and align_corners compared explicitly and "
-            "bit-exactly for grids that are handed on) and axes are checked, values are compared with plain torch, deep copies "
-            "/ pickles / clones must not share Grid objects or grid storage with their input, and exceptions raised by the "
-            "dispatcher on programs plain torch accepts are reported. A second facet checks the explicit batch builders "
-            "(from_images, append, batch(), iteration, collate_samples) on such grid plans, and that flow fields with different "
+            "tolerance of Grid.__eq__. Grids with a history: half of the item geometries are not constructed but derived "
+            "by deepali's own methods (Grid.downsample / Image.downsample of odd sizes, downsample(2), Grid.resample to a spacing "
+            "that does not divide the extent, Grid.align_corners(flag)), so that the Grid stores a FRACTIONAL size (e.g. 3.5 for 4 "
+            "samples) which size() rounds up and no public accessor shows; an item may also be the constructed 'integer twin' of "
+            "such a grid (same public attributes, integer stored size). Whenever deepali returns one of its four types the grid "
+            "count, grid shapes, per-entry grid (as told by the shadow; size, the stored float size, center, spacing, direction "
+            "and align_corners compared explicitly and bit-exactly for grids that are handed on) and axes are checked, values "
+            "are compared with plain torch, deep copies / pickles / clones must not share Grid objects or grid storage with "
+            "their input, and exceptions raised by the dispatcher on programs plain torch accepts are reported. The grids of "
+            "every copy-like result (copy, deepcopy, pickle, clone, detach, contiguous, casts) are in addition compared with "
+            "those of its input pairwise: equal under Grid.__eq__, slot by slot, and Grid.upsample / Grid.downsample applied to "
+            "both give identical grids. Operands are only read: after every operation the object it was applied to and every "
+            "further deepali operand (and, at the end of the program, the initial objects) hold the same Grid objects - as many, "
+            "same container type, unchanged slots -, the same axes and the data plain torch leaves in its operands. A second "
+            "facet checks the explicit batch builders (from_images, append, batch(), iteration, collate_samples) on such grid "
+            "plans (their inputs must be left unchanged too), and that flow fields with different "
             "vector axes are never merged (append, from_images, cat, collate) into one batch under a single axes label. "
             "Copies of views: the wrapped data is, in half of the random cases and in 10 survey objects, itself a view of a "
             "larger buffer (contiguous at a non-zero storage offset, strided, transposed memory, cropped; optionally an autograd "
@@ -45,11 +56,15 @@ MANIFEST = {
             "call form (copy.copy, _make_instance, deepcopy and pickle - each protocol 2..5, torch.save - alone, inside a "
             "container, of the same object twice, of all entries of the batch together; clone/contiguous/detach/to/type): the "
             "copy must have the type, values (equal to the plain twin), grids, axes and requires_grad flag of its input, be a "
-            "new object, and deep copies / pickles / clones must own their storage. "
+            "new object, and deep copies / pickles / clones must own their storage. Every copy mechanism is also followed by every "
+            "operation that uses the copy as one operand among several (cat as first / last operand, stack, append, binary ops, "
+            "split, from_images, ...). "
             "Exploration, no proof: a deterministic survey of every call form plus random programs.",
     "note": "Trusted: plain torch semantics of the same calls on torch.Tensor (the shadow), the closed-form item grids "
             "(geometry k: center 100*k+10*a, spacing 1+k/2+a/4, optional x-y rotation by 0.2+0.1*k rad; float32-exact values) "
-            "built in props/c19.py and that Grid(...) stores such values unchanged (asserted for every input grid). Entries "
+            "built in props/c19.py and that Grid(...) stores such values unchanged (asserted for every input grid). For an item "
+            "whose grid has a history the expected grid is the snapshot of the five slots of the Grid object the case was built "
+            "with (what deepali derives is C03's subject, not judged here; the derivation is asserted to be repeatable). Entries "
             "mixing data of several items are only checked for grid count/shape. Grids recomputed by the narrow override are "
             "compared with a float64 model within 64 eps32 (center) / 4 eps32 (spacing, direction). CPU, float32/float64, "
             "N<=4, spatial sizes<=4, D in {2,3}.",
@@ -65,8 +80,19 @@ ASSUMPTIONS = [
     "ImageBatch.narrow / Image.narrow along a spatial dimension are expected to narrow every item's own grid",
     "deepcopy / pickle / clone must not share Grid objects or grid attribute storage with the input; copy.copy may share; "
     "whether entries of the result share Grid objects among each other is not constrained",
-    "the grid of an entry is the input item's grid in every attribute including align_corners (Grid.__eq__, which ignores "
-    "align_corners and is tolerant, is never used); a grid that is handed on unchanged is compared bit-exactly",
+    "the grid of an entry is the input item's grid in every attribute including align_corners and the float size the Grid "
+    "stores internally (slot _size: fractional after downsample() of an odd size or resample(); size() rounds it up, "
+    "Grid.__eq__ compares it, upsample() / downsample() start from it); a grid that is handed on unchanged is compared "
+    "bit-exactly, slot by slot (Grid.__eq__, which ignores align_corners and is tolerant, is never used alone; the grids "
+    "of a copy-like result must in addition be == those of its input)",
+    "a copy behaves like its original in later derivations: Grid.upsample() / Grid.downsample() (along axes where both are "
+    "well defined for any grid: more than one sample / more than one sample left) of a copied grid and of the original "
+    "give identical grids; image resampling on grids with a fractional stored size is NOT exercised (C04, known K3 / K4)",
+    "an operation does not modify its operands (as plain torch does not, except for the target of an in-place op): "
+    "afterwards they hold the same Grid objects (identity, number, container type, slot values), axes, type, shape, dtype, "
+    "requires_grad and data; the same holds for the images / batches given to from_images, append, batch(), collate_samples",
+    "torch.clone / Tensor.clone are copying in the sense of the property: the result has the type of its input (as for "
+    "copy.copy, deepcopy, pickle); all other operations may still return a plain tensor",
     "ImageBatch.grids() returns a tuple (its documented return type, which append() relies on)",
     "merging flow fields with different axes must either be rejected (ValueError) or not yield a flow-field result that "
     "holds an item's unchanged vectors under another axes label; combining FlowFields with ImageBatch operands is not judged",
@@ -128,6 +154,7 @@ def geo_desc(k: int, shape, ac: bool, rot: bool = False, pert=None) -> dict:
         else:
             direction[a][a] = direction[a][a] * (1.0 + PERT)
     return {"size": [int(n) for n in tuple(shape)[::-1]],
+            "fsize": [float(n) for n in tuple(shape)[::-1]],  # the size as the Grid stores it (float; see HISTORIES below)
             "center": [_f32(v) for v in center],
             "spacing": [_f32(v) for v in spacing],
             "direction": [[_f32(v) for v in row] for row in direction],
@@ -151,13 +178,91 @@ def narrow_desc(desc: dict, axis: int, start: int, length: int) -> dict:
     return d
 
 
-def build_grid(desc: dict):
+# grids with a history: a Grid stores its size as a float tensor (`_size`, "such that grid.downsample().upsample() == grid")
+# and reports ceil(_size) as size() / shape. Grids derived by deepali's own methods (downsample of an odd size, resample to a
+# spacing that does not divide the extent) therefore carry a FRACTIONAL stored size that none of the public accessors shows but
+# that Grid.__eq__ compares and every later derivation (upsample, downsample, ...) starts from. The item grids of a case may be
+# such derived grids: hist = {"kind", "par" (one small int per grid axis), "pac" (align_corners of the precursor), "via"}
+#   down:     precursor of size 2n - par (par in {0, 1}; 1: odd) per axis, halved by Grid.downsample() -> stored n - par/2
+#   down2:    precursor of size 4n - par (par in 0..3), Grid.downsample(2) -> stored n - par/4
+#   resample: precursor of size n, Grid.resample(spacing * f), f = 1.125 (par odd) or 1.0625 (par even) -> stored n / f
+#   flag:     precursor with the other align_corners flag, Grid.align_corners(flag) (integer size; shares tensors with the precursor)
+# (axes with a single sample keep a precursor of one sample for down / down2: nothing to halve). via = "image": the grid is the
+# one Image(zeros, precursor).downsample() carries (its min_size is 0: a single sample is stored as 0.5). What deepali derives is not judged here (C03): the expected grid of such an
+# item is the snapshot of all five slots of the Grid object the case was built with; the derivation is deterministic.
+
+HIST_KINDS = ("down", "down2", "resample", "flag")
+RESAMPLE_FACTORS = (1.0625, 1.125)
+
+
+def grid_slots(g) -> tuple:
+    """Every slot of a deepali Grid as python values (the stored float size included)."""
+    return (g._size.tolist(), g._center.tolist(), g._spacing.tolist(), g._direction.tolist(), bool(g._align_corners))
+
+
+def snap_desc(g) -> dict:
+    """Descriptor of the grid a Grid object holds right now (float32 values as python floats)."""
+    return {"size": [int(n) for n in g.size()], "fsize": g._size.tolist(), "center": g.center().double().tolist(),
+            "spacing": g.spacing().double().tolist(), "direction": g.direction().double().tolist(), "ac": bool(g.align_corners())}
+
+
+def is_fractional(desc: dict) -> bool:
+    return any(float(v) != float(n) for v, n in zip(desc.get("fsize", desc["size"]), desc["size"]))
+
+
+def derive_hist_grid(base: dict, hist: dict):
+    """Grid with the history `hist` whose size() is that of the closed-form grid `base` (center, direction from `base`;
+    align_corners: base['ac'], set with the Grid.align_corners(flag) 'wither' if the precursor had the other flag)."""
+    from deepali.core import Grid
+    from deepali.data import Image
+
+    n = list(base["size"])
+    kind, par, pac = hist["kind"], [int(v) for v in hist["par"]], bool(hist.get("pac", base["ac"]))
+    mk = lambda size, ac: Grid(size=size, center=base["center"], spacing=base["spacing"], direction=base["direction"],  # noqa: E731
+                               align_corners=ac)
+    if kind in ("down", "down2"):
+        lv = 1 if kind == "down" else 2
+        psize = [1 if m < 2 else (2 ** lv) * m - (q % (2 ** lv)) for m, q in zip(n, par)]
+        pre = mk(psize, pac)
+        if hist.get("via") == "image":
+            g = Image(torch.zeros((1,) + tuple(psize[::-1])), pre).downsample(lv).grid()
+        else:
+            g = pre.downsample(lv)
+    elif kind == "resample":
+        pre = mk(n, pac)
+        g = pre.resample([s * RESAMPLE_FACTORS[q % 2] for s, q in zip(pre.spacing().tolist(), par)])
+    elif kind == "flag":
+        g = mk(n, not base["ac"])
+    else:
+        raise ValueError(kind)
+    if bool(g.align_corners()) != base["ac"]:
+        g = g.align_corners(base["ac"])
+    if [int(v) for v in g.size()] != n:  # (generator invariant, not a property of deepali that is judged here)
+        raise RuntimeError(f"history {hist} gives a grid of size {list(g.size())}, wanted {n}")
+    return g
+
+
+def make_item_grid(base: dict, hist: Optional[dict], twin: bool = False):
+    """The Grid object of an item: constructed from the closed-form values, or derived (hist); twin: a grid CONSTRUCTED from
+    the public attributes (size(), center, spacing, direction, flag) of the derived one - equal in everything the accessors
+    show, with an integer stored size."""
     from deepali.core import Grid
 
-    g = Grid(size=desc["size"], center=desc["center"], spacing=desc["spacing"], direction=desc["direction"],
-             align_corners=desc["ac"])
+    if hist is None:
+        return Grid(size=base["size"], center=base["center"], spacing=base["spacing"], direction=base["direction"],
+                    align_corners=base["ac"])
+    g = derive_hist_grid(base, hist)
+    if twin:
+        g = Grid(size=g.size(), center=g.center().clone(), spacing=g.spacing().clone(), direction=g.direction().clone(),
+                 align_corners=g.align_corners())
+    return g
+
+
+def build_grid(desc: dict):
+    src = desc.get("src")  # (closed-form base, hist, twin) of an item with a history
+    g = make_item_grid(desc, None) if src is None else make_item_grid(*src)
     bad = grid_mismatch(g, desc)
-    if bad:  # the trusted base: a grid constructed from float32-exact values stores them unchanged
+    if bad:  # the trusted base: a grid constructed from float32-exact values stores them unchanged (derivations: repeatable)
         raise RuntimeError(f"input grid is not the described grid: {bad}")
     return g
 
@@ -166,9 +271,9 @@ def grid_mismatch(g, desc: dict) -> Optional[str]:
     """None if the deepali grid `g` is the grid described by `desc`, else what differs.
 
     Every attribute is compared explicitly (never with Grid.__eq__, which ignores align_corners and is tolerant):
-    size and align_corners always exactly; center, spacing and direction bit-exactly for a grid that is handed on
-    (indexing, cat, split, copy, pickle, collate, ...), within float32 round-off of the float64 model for a grid
-    that deepali recomputes (desc['derived']: ImageBatch.narrow / Image.narrow along a spatial dimension)."""
+    size and align_corners always exactly; the stored float size, center, spacing and direction bit-exactly for a grid
+    that is handed on (indexing, cat, split, copy, pickle, collate, ...), within float32 round-off of the float64 model for
+    a grid that deepali recomputes (desc['derived']: ImageBatch.narrow / Image.narrow along a spatial dimension)."""
     if [int(n) for n in g.size()] != list(desc["size"]):
         return f"size {list(g.size())} != {desc['size']}"
     if bool(g.align_corners()) != desc["ac"]:
@@ -177,6 +282,9 @@ def grid_mismatch(g, desc: dict) -> Optional[str]:
     s = g.spacing().double().tolist()
     d = g.direction().double().tolist()
     if not desc.get("derived"):
+        fs = g._size.tolist()
+        if fs != list(desc["fsize"]):
+            return f"stored size {fs} != {desc['fsize']} (size() agrees)"
         if c != list(desc["center"]):
             return f"center {c} != {desc['center']}"
         if s != list(desc["spacing"]):
@@ -201,16 +309,33 @@ def grid_mismatch(g, desc: dict) -> Optional[str]:
 # grid plans: which items share geometry / differ only in align_corners / share one Grid object / are equal-valued copies /
 # differ by less than the tolerance of Grid.__eq__
 
-PLAN_RELATIONS = ("flip_ac", "same_obj", "equal", "pert")
+PLAN_RELATIONS = ("flip_ac", "same_obj", "equal", "pert", "int_twin")
+
+
+def draw_hist(draw, D: int) -> Optional[dict]:
+    """History of a new item's grid: none (constructed; 50%) or one of HIST_KINDS with per-axis parameters."""
+    kind = draw(st.sampled_from((None,) * 5 + ("down", "down", "down2", "resample", "flag")))
+    if kind is None:
+        return None
+    hi = {"down": 1, "down2": 3, "resample": 1, "flag": 0}[kind]
+    par = [draw(st.sampled_from([0] + [v for v in range(1, hi + 1)] * 2)) for _ in range(D)]
+    h = {"kind": kind, "par": par, "pac": draw(st.booleans())}
+    if kind in ("down", "down2") and draw(st.sampled_from([False, False, True])):
+        h["via"] = "image"
+    return h
 
 
 def draw_plan(draw, n: int, D: int, base: int = 0) -> dict:
-    """Grid plan for `n` items: {'rot': bool, 'items': [{'geo', 'ac', 'pert', 'share'}]}; entry i describes item base+i.
+    """Grid plan for `n` items: {'rot': bool, 'items': [{'geo', 'ac', 'pert', 'share', 'hist', 'twin'}]}; entry i describes
+    item base+i.
 
-    mode distinct: every item has its own geometry (and its own align_corners flag);
+    mode distinct: every item has its own geometry (and its own align_corners flag, and its own history: constructed, or
+    derived by deepali's methods with a fractional stored size, see HIST_KINDS);
     mode mixed / same: an item may refer to an earlier one: same geometry with the other align_corners ('flip_ac'), the very
-    same Grid object ('same_obj'), an equal-valued distinct Grid ('equal'), or equal up to a perturbation of one attribute
-    below the tolerance of Grid.__eq__ ('pert'). In mode same no item introduces a new geometry."""
+    same Grid object ('same_obj'), an equal-valued distinct Grid ('equal'; same history), equal up to a perturbation of one
+    attribute below the tolerance of Grid.__eq__ ('pert'), or - for an earlier item with a history - a CONSTRUCTED grid with
+    the same public attributes, i.e. one that differs only in the stored fractional size ('int_twin'). In mode same no item
+    introduces a new geometry."""
     mode = draw(st.sampled_from(["distinct", "distinct", "mixed", "mixed", "same"]))
     items: List[dict] = []
     for i in range(n):
@@ -220,40 +345,63 @@ def draw_plan(draw, n: int, D: int, base: int = 0) -> dict:
         elif i > 0 and mode == "same":
             rel = draw(st.sampled_from(("flip_ac",) + PLAN_RELATIONS))
         if rel == "new":
-            items.append({"geo": base + i, "ac": draw(st.booleans()), "pert": None, "share": None})
+            items.append({"geo": base + i, "ac": draw(st.booleans()), "pert": None, "share": None, "hist": draw_hist(draw, D)})
             continue
         r = draw(st.integers(0, i - 1))
         ref = items[r]
-        e = {"geo": ref["geo"], "ac": ref["ac"], "pert": ref["pert"], "share": None}
+        e = {"geo": ref["geo"], "ac": ref["ac"], "pert": ref["pert"], "share": None, "hist": ref.get("hist")}
+        if ref.get("twin"):
+            e["twin"] = True
         if rel == "flip_ac":
             e["ac"] = not ref["ac"]
         elif rel == "same_obj":
             e["share"] = r if ref["share"] is None else ref["share"]
         elif rel == "pert":
             e["pert"] = None if ref["pert"] else [draw(st.sampled_from(["center", "spacing", "direction"])), draw(st.integers(0, D - 1))]
+        elif rel == "int_twin" and ref.get("hist") is not None:
+            e["twin"] = not ref.get("twin")
         items.append(e)
     return {"mode": mode, "rot": draw(st.sampled_from([False, False, True])), "items": items}
 
 
+@functools.lru_cache(maxsize=4096)
+def _hist_snapshot(src_json: str) -> dict:
+    """Snapshot of the grid with the given (closed-form base, hist, twin) - the derivation is deterministic (build_grid
+    asserts that every Grid object built for a case reproduces it)."""
+    base, hist, twin = json.loads(src_json)
+    return snap_desc(make_item_grid(base, hist, twin))
+
+
 def plan_tables(plan: dict, shape, base: int = 0) -> Tuple[Dict[int, dict], Dict[int, int]]:
-    """(expected grid of every item id, id -> id of the item whose Grid object it uses)."""
+    """(expected grid of every item id, id -> id of the item whose Grid object it uses).
+
+    The expected grid of a constructed item is the closed form; that of an item with a history is the snapshot of the
+    grid deepali derives from the closed-form precursor (desc['src'] tells build_grid how to derive it again)."""
     G, root = {}, {}
     for i, e in enumerate(plan["items"]):
-        G[base + i] = geo_desc(e["geo"], shape, e["ac"], bool(plan.get("rot")), e.get("pert"))
+        d = geo_desc(e["geo"], shape, e["ac"], bool(plan.get("rot")), e.get("pert"))
+        if e.get("hist") is not None:
+            src = (d, e["hist"], bool(e.get("twin")))
+            d = dict(_hist_snapshot(json.dumps(src, sort_keys=True)), src=src)
+        G[base + i] = d
         root[base + i] = base + (i if e.get("share") is None else int(e["share"]))
     return G, root
 
 
-def plan_labels(plan: Optional[dict], used: int) -> List[str]:
+def plan_labels(plan: Optional[dict], used: int, G: Optional[Dict[int, dict]] = None) -> List[str]:
     """Which relations occur among the first `used` items of the plan."""
     if plan is None:
         return ["plan=none"]
     out = [f"plan={plan.get('mode', 'fixed')}"] + (["plan:rot"] if plan.get("rot") else [])
     items = plan["items"][:used]
     for i, e in enumerate(items):
+        if e.get("hist") is not None:
+            out.append(f"hist={e['hist']['kind']}" + (":image" if e["hist"].get("via") == "image" else "") + (":twin" if e.get("twin") else ""))
         for f in items[:i]:
-            if e["geo"] == f["geo"] and e.get("pert") == f.get("pert"):
-                if e["ac"] != f["ac"]:
+            if e["geo"] == f["geo"] and e.get("pert") == f.get("pert") and e.get("hist") == f.get("hist"):
+                if bool(e.get("twin")) != bool(f.get("twin")):
+                    out.append("plan:int_twin_pair" + ("" if e["ac"] == f["ac"] else "_ac"))
+                elif e["ac"] != f["ac"]:
                     out.append("plan:ac_only_pair")
                 elif e.get("share") is None:
                     out.append("plan:equal_copy")
@@ -261,6 +409,8 @@ def plan_labels(plan: Optional[dict], used: int) -> List[str]:
                 out.append("plan:pert_pair")
         if e.get("share") is not None and e["share"] < used:
             out.append("plan:shared_obj")
+    if G is not None and any(is_fractional(d) for d in list(G.values())[:used]):
+        out.append("hist:fractional_size")
     return sorted(set(out))
 
 
@@ -735,6 +885,16 @@ def op_name(op: dict) -> str:
     return o
 
 
+def op_operand_names(op: dict) -> List[str]:
+    """Names of the further operands ('twin', 'other', ...) an op reads besides the object it is applied to."""
+    o = op["op"]
+    if o in ("cat", "stack"):
+        return [n for n in op["operands"] if n != "self"]
+    if o in ("binary", "where", "append"):
+        return [op["other"]] if op.get("other") not in (None, "self") else []
+    return []
+
+
 def touches_dim0(op: dict, ndim: int) -> bool:
     """Does the op reorder / select / split / join along dimension 0?"""
     o = op["op"]
@@ -986,6 +1146,94 @@ def check_independent(x, r, name: str):
         raise Violation(f"shared_data:{name}", f"{name} result shares storage with its input")
 
 
+def grids_of(real) -> list:
+    return list(real.grids()) if dtype_of(real) in BATCH_KINDS else [real.grid()]
+
+
+def operand_state(real) -> Optional[dict]:
+    """What an operation that merely reads `real` must leave alone: type, shape, dtype, requires_grad, axes, the container
+    type / number / identity of its grids and every slot of each of them. (Keeps the Grid objects alive: ids stay unique.)"""
+    kind = dtype_of(real)
+    if kind is None:
+        return None
+    grids = grids_of(real)
+    return {"type": type(real), "shape": tuple(real.shape), "dtype": real.dtype, "rg": bool(real.requires_grad),
+            "axes": real.axes().value if kind in ("FlowFields", "FlowField") else None,
+            "cont": type(real.grids()).__name__ if kind in BATCH_KINDS else "Grid",
+            "grids": grids, "slots": [grid_slots(g) for g in grids]}
+
+
+def check_operand_unchanged(real, before: Optional[dict], plain: Optional[torch.Tensor], name: str, role: str):
+    """An operand of an operation (and the object a copy was made of) is the same object afterwards: its grids are the same
+    Grid objects, as many as before, with unchanged slots; axes, type, shape, flags unchanged; data equal to `plain` (the
+    plain twin after the same operation - changed in place exactly when plain torch changes its operand in place)."""
+    if before is None:
+        return
+    what = f"{role} operand of {name}"
+    if type(real) is not before["type"] or tuple(real.shape) != before["shape"] or real.dtype != before["dtype"] or bool(real.requires_grad) != before["rg"]:
+        raise Violation(f"operand_changed:{name}", f"{what}: was {before['type'].__name__}{before['shape']} {before['dtype']} rg={before['rg']}, "
+                                                   f"is {type(real).__name__}{tuple(real.shape)} {real.dtype} rg={real.requires_grad}")
+    kind = dtype_of(real)
+    cont = type(real.grids()).__name__ if kind in BATCH_KINDS else "Grid"
+    grids = grids_of(real)
+    if cont != before["cont"] or len(grids) != len(before["grids"]):
+        raise Violation(f"operand_grids_changed:{name}", f"{what}: held {len(before['grids'])} grids ({before['cont']}), afterwards {len(grids)} ({cont}) "
+                                                         f"for {real.shape[0] if kind in BATCH_KINDS else 1} entries")
+    for i, (g, g0, s0) in enumerate(zip(grids, before["grids"], before["slots"])):
+        if g is not g0:
+            raise Violation(f"operand_grids_changed:{name}", f"{what}: grid {i} was replaced by another Grid object")
+        s1 = grid_slots(g)
+        if s1 != s0:
+            raise Violation(f"operand_grid_modified:{name}", f"{what}: slots (size, center, spacing, direction, align_corners) of grid {i} changed from {s0} to {s1}")
+    if before["axes"] is not None and real.axes().value != before["axes"]:
+        raise Violation(f"operand_axes_changed:{name}", f"{what}: axes were {before['axes']}, are {real.axes().value}")
+    if plain is not None:
+        rt = real.as_subclass(torch.Tensor)
+        if not (torch.equal(rt, plain) or (rt.dtype.is_floating_point and bool(((rt == plain) | (rt.isnan() & plain.isnan())).all()))):
+            raise Violation(f"operand_data_changed:{name}", f"{what}: data differ from what plain torch leaves in its operand")
+
+
+def followup_dims(g, meth: str) -> list:
+    """Axes along which the follow-up derivation is well defined for every grid (C03's business otherwise): upsample where
+    there is more than one sample, downsample where more than one sample remains."""
+    if meth == "upsample":
+        return [d for d, n in enumerate(g.size()) if n >= 2]
+    return [d for d, v in enumerate(g._size.tolist()) if v > 2.0]
+
+
+def check_same_grids(x, r, name: str) -> int:
+    """Grids of a copy-like result `r` (copy, deepcopy, pickle, clone, detach, contiguous, casts, ...) against those of its
+    input `x`, pairwise: equal under Grid.__eq__ (both ways), same align_corners flag, every slot identical, and the same
+    follow-up derivation (Grid.upsample along the axes with more than one sample; Grid.downsample likewise) applied to both
+    gives grids with identical slots - a copy behaves like the original in whatever is derived from it later.
+    Returns the number of grids with a fractional stored size that were compared."""
+    kx = dtype_of(x)
+    if kx is None or dtype_of(r) is None or (kx in BATCH_KINDS) != (dtype_of(r) in BATCH_KINDS):
+        return 0
+    gx, gr = grids_of(x), grids_of(r)
+    if len(gx) != len(gr):
+        return 0  # (grid count: check_result)
+    nfrac = 0
+    for i, (a, b) in enumerate(zip(gx, gr)):
+        if not (a == b) or not (b == a) or bool(a.align_corners()) != bool(b.align_corners()):
+            raise Violation(f"copy_grid_not_equal:{name}", f"grid {i} of the {name} result {b!r} != grid of its input {a!r} (Grid.__eq__ / align_corners)")
+        sa, sb = grid_slots(a), grid_slots(b)
+        if sa != sb:
+            raise Violation(f"copy_grid_slots:{name}", f"grid {i} of the {name} result has slots {sb}, its input {sa}")
+        frac = any(v != math.ceil(v) for v in sa[0])
+        nfrac += int(frac)
+        if a is b or not (frac or i == 0):
+            continue
+        for meth in ("upsample", "downsample"):
+            dims = followup_dims(a, meth)
+            if not dims:
+                continue
+            fa, fb = getattr(a, meth)(1, dims=dims), getattr(b, meth)(1, dims=dims)
+            if grid_slots(fa) != grid_slots(fb):
+                raise Violation(f"copy_grid_followup:{name}", f"Grid.{meth}() of grid {i} of the {name} result gives {fb!r}, of its input {fa!r}")
+    return nfrac
+
+
 def initial_objects(case) -> Tuple[Obj, Dict[str, Obj], Dict[int, dict]]:
     kind, shape, C, N = case["kind"], tuple(case["shape"]), case["C"], case["N"]
     dt = _dt(case["dtype"])
@@ -1027,6 +1275,8 @@ def run_program(case, collect=None):
     D = stt.D
     x, p, lo, hi = main.real, main.plain, main.lo, main.hi  # (make_obj built the twin in its own storage)
     others_plain = {n: Obj(o.real, o.plain.clone(), o.lo, o.hi) for n, o in others.items()}
+    input_states = {"self": operand_state(main.real), **{n: operand_state(o.real) for n, o in others.items()}}
+    nfrac = 0
     flow_in = case["kind"] in ("FlowFields", "FlowField")
     nsteps = 0
     for k, op in enumerate(case["ops"]):
@@ -1087,7 +1337,13 @@ def run_program(case, collect=None):
         Er = plain_env(others_plain, "real", x)
         Er["_p"] = p_before
         Er["plain"] = Ep["plain"]
+        x_state = operand_state(x)
         r = guarded(lambda: call(x, Er), name)
+        # operands are only read: the object the operation was applied to and the other batches / images involved hold the
+        # same Grid objects (as many, unchanged) and - unless plain torch works in place - the same data afterwards
+        guarded(lambda: check_operand_unchanged(x, x_state, p_before, name, "first"), name)
+        for on in sorted(set(op_operand_names(op)) & set(others_plain)):
+            guarded(lambda on=on: check_operand_unchanged(others_plain[on].real, input_states[on], others_plain[on].plain, name, f"'{on}'"), name)
         routs = r if isinstance(r, (tuple, list)) else None
         if (pouts is None) != (routs is None):
             raise Violation(f"result_structure:{name}", f"deepali returned {type(r).__name__}, plain torch {type(pr).__name__}")
@@ -1103,6 +1359,9 @@ def run_program(case, collect=None):
         for i in range(len(rl)):
             kinds.append(guarded(lambda i=i: check_result(stt, rl[i], pl[i], ll[i], hl[i], name, sfx, flow_in), name))
         is_clone = op["op"] == "cast" and op["fn"] in ("clone", "torch_clone")
+        if cat == "same" and op.get("via") not in ("items", "chunks"):  # copy-like: the grids are those of the input, slot by slot
+            for ri in rl:
+                nfrac += guarded(lambda ri=ri: check_same_grids(x, ri, name), name)
         if op["op"] in COPY_OPS or is_clone:
             via = op.get("via")
             if via == "items":  # the inputs of the copies are the entries of x
@@ -1116,7 +1375,9 @@ def run_program(case, collect=None):
             for xi, ri, pi in zip(srcs, rl, pl):
                 if ri is xi:  # (a copy is a new object: attributes set on it, e.g. grid_(), must not reach the original)
                     raise Violation(f"copy_identity:{name}", f"{name} returned its input object")
-                check_copy(stt, xi, ri, name, type_too=not is_clone)
+                check_copy(stt, xi, ri, name)
+                if via in ("items", "chunks"):
+                    nfrac += guarded(lambda xi=xi, ri=ri: check_same_grids(xi, ri, name), name)
                 if is_clone and (ri.grad_fn is None) != (pi.grad_fn is None):
                     raise Violation(f"autograd_history:{name}", f"{name}: grad_fn is {type(ri.grad_fn).__name__}, of the plain tensor {type(pi.grad_fn).__name__}")
                 if op["op"] in ("deepcopy", "pickle") or is_clone:
@@ -1136,11 +1397,18 @@ def run_program(case, collect=None):
         j = op.get("pick", 0) % len(rl)
         x, p, lo, hi = rl[j], pl[j], ll[j], hl[j]
         lo, hi = taint_mixed(x, lo, hi)
+    # the objects the case started with still hold their grids (a later operation on a result must not reach back either);
+    # the data of the main object may have been changed through a view of it (in-place operations), that of the others not
+    check_operand_unchanged(main.real, input_states["self"], None, "program", "initial")
+    for on, o in others_plain.items():
+        check_operand_unchanged(o.real, input_states[on], o.plain, "program", f"'{on}'")
+    if nfrac:
+        stt.labels.append("copy_of_fractional_grid")
     info = {"nontrivial": stt.nt and case.get("N", 1) >= 2,
             "labels": stt.labels + [f"kind={case['kind']}", f"N={case.get('N', 1)}", f"D={D}", f"steps={nsteps}"]
             + ([f"excluded_known:{e}" for e in case.get("excluded", [])]) + (["mixed_entries"] if stt.mixed else [])
             + [f"init={(case.get('init') or {}).get('layout') or 'dense'}"] + (["init:requires_grad"] if (case.get("init") or {}).get("rg") else [])
-            + plan_labels(case.get("gplan"), case.get("N", 1))}
+            + plan_labels(case.get("gplan"), case.get("N", 1), G)}
     return info
 
 
@@ -1838,6 +2106,65 @@ SURVEY_BASES = [
 ]
 
 
+def _item(geo, ac, hist=None, twin=False, share=None, pert=None) -> dict:
+    e = {"geo": geo, "ac": ac, "pert": pert, "share": share, "hist": hist}
+    if twin:
+        e["twin"] = True
+    return e
+
+
+# objects whose grids have a history (derived by deepali's own methods; stored sizes 2.5 x 3.5, 2.67 x 3.76, 2.25 x 3.75, ...)
+HIST_BASES = [
+    # item 0: downsample of 7 x 5; item 1: resample; item 2: constructed grid with the public attributes of item 0 (integer
+    # stored size); the 'other' item: downsample(2) of 15 x 9
+    {"kind": "ImageBatch", "N": 3, "C": 2, "shape": [3, 4], "dtype": "float32", "ac": True, "M": 1,
+     "gplan": {"mode": "fixed", "rot": False, "items": [
+         _item(0, True, {"kind": "down", "par": [1, 1], "pac": True}), _item(1, False, {"kind": "resample", "par": [1, 0], "pac": False}),
+         _item(0, True, {"kind": "down", "par": [1, 1], "pac": True}, twin=True), _item(3, True, {"kind": "down2", "par": [1, 3], "pac": True})]}},
+    # rotated; item 0: the grid Image.downsample() derives from 4 x 5 (align_corners of the precursor False, set True
+    # afterwards); item 1: the same with align_corners False; item 2: downsample(2); 'other': resample
+    {"kind": "FlowFields", "N": 3, "C": 2, "shape": [3, 2], "dtype": "float32", "ac": False, "M": 1, "axes": "world",
+     "gplan": {"mode": "fixed", "rot": True, "items": [
+         _item(1, True, {"kind": "down", "par": [0, 1], "pac": False, "via": "image"}), _item(1, False, {"kind": "down", "par": [0, 1], "pac": False, "via": "image"}),
+         _item(2, False, {"kind": "down2", "par": [2, 3], "pac": False}), _item(3, True, {"kind": "resample", "par": [1, 1], "pac": True})]}},
+    {"kind": "Image", "N": 1, "C": 2, "shape": [3, 4], "dtype": "float64", "ac": True, "id": 1,
+     "gplan": {"mode": "fixed", "rot": False, "items": [
+         _item(1, False, {"kind": "down", "par": [1, 1], "pac": False}), _item(1, False, {"kind": "down", "par": [1, 1], "pac": False}, twin=True)]}},
+    {"kind": "FlowField", "N": 1, "C": 2, "shape": [2, 3], "dtype": "float32", "ac": True, "id": 0, "axes": "grid",
+     "gplan": {"mode": "fixed", "rot": True, "items": [
+         _item(0, True, {"kind": "resample", "par": [0, 1], "pac": True}), _item(1, True, {"kind": "down", "par": [1, 0], "pac": True})]}},
+]
+
+
+# one copy-like call form per mechanism (the variants - pickle protocols, containers - are covered by copy_forms())
+COPY_MECHANISMS = [{"op": "copy"}, {"op": "make_instance"}, {"op": "deepcopy", "via": None}, {"op": "deepcopy", "via": "pair", "pick": 1},
+                   {"op": "pickle", "via": None}, {"op": "pickle", "via": "torch_save"}] + [
+    {"op": "cast", "fn": fn, "dtype": dt} for fn, dt in (("clone", "float32"), ("torch_clone", "float32"), ("contiguous", "float32"),
+                                                          ("detach", "float32"), ("to", "float32"), ("to_kw", "float64"), ("type", "float32"))]
+
+
+def consumer_ops(batch: bool) -> List[dict]:
+    """Operations that read the current object together with further operands, or hand its grids on."""
+    ops: List[dict] = []
+    for names in (["self", "other"], ["other", "self"], ["self", "self"], ["self", "twin", "other"]):
+        ops.append({"op": "cat", "operands": names, "dim": 0, "ds": "default", "container": "list"})
+    ops.append({"op": "cat", "operands": ["self", "other"], "dim": 0, "ds": "kw", "container": "tuple"})
+    ops.append({"op": "cat", "operands": ["self", "twin"], "dim": 1, "ds": "pos", "container": "list"})
+    ops.append({"op": "stack", "operands": ["self", "twin"], "dim": 0, "ds": "kw", "container": "list"})
+    for rev in (False, True):
+        ops.append({"op": "binary", "fn": "add", "other": "twin", "rev": rev, "sb": batch})
+    ops.append({"op": "where", "other": "twin", "sb": batch})
+    ops.append({"op": "inplace", "fn": "add_"})
+    ops.append({"op": "getitem", "ix": _sl(0, 1)})
+    ops.append({"op": "cast", "fn": "clone", "dtype": "float32"})
+    if batch:
+        ops += [{"op": "append", "other": "other"}, {"op": "append", "other": "self"}, {"op": "from_images"}, {"op": "iter", "pick": 1},
+                {"op": "split", "sec": [1, 1], "sectype": "list", "dim": 0, "ds": "kw", "style": "method", "pick": 1}]
+    else:
+        ops.append({"op": "batch"})
+    return ops
+
+
 def survey_programs(batch: bool, nd: int, n0: int, sp) -> List[List[dict]]:
     """Fixed programs of 3 operations mixing structural operations, explicit builders and copies."""
     clone = {"op": "cast", "fn": "clone", "dtype": "float32"}
@@ -1885,12 +2212,22 @@ CROSS_BASES = [dict(SURVEY_BASES[0], N=4), SURVEY_BASES[1], SURVEY_BASES[2], SUR
 
 def survey_cases(tier: str = "quick"):
     out = []
-    # every op that returns a view of its input, followed by every copy-like op (quick tier: on 5 of the 11 objects)
-    for base in (CROSS_BASES if tier == "thorough" else [CROSS_BASES[i] for i in (0, 3, 4, 5, 8)]):
+    # every op that returns a view of its input, followed by every copy-like op (quick tier: on 6 of the 15 objects)
+    # (and on one object with fractional grid sizes, there with one call form per copy mechanism)
+    for base in (CROSS_BASES + HIST_BASES if tier == "thorough" else [CROSS_BASES[i] for i in (0, 3, 4, 5, 8)] + HIST_BASES[:1]):
         for vop in view_ops(base):
-            for cop in copy_forms():
+            for cop in (COPY_MECHANISMS if tier != "thorough" and base is HIST_BASES[0] else copy_forms()):
                 out.append(dict(base, ops=[vop, cop]))
-    for base in SURVEY_BASES + SURVEY_VIEW_BASES:
+    # every copy-like op followed by every op that uses the copy as one operand among several (the copy must serve as the
+    # original would, and be left as it was)
+    for base in HIST_BASES + ([SURVEY_BASES[0], SURVEY_BASES[3], SURVEY_BASES[9], SURVEY_VIEW_BASES[6]] if tier == "thorough" else [SURVEY_BASES[9]]):
+        batch = base["kind"] in BATCH_KINDS
+        sec = [1, base["N"] - 1]
+        for cop in COPY_MECHANISMS:
+            for use in consumer_ops(batch):
+                use = dict(use, sec=sec) if use["op"] == "split" else use
+                out.append(dict(base, ops=[cop, use]))
+    for base in SURVEY_BASES + SURVEY_VIEW_BASES + HIST_BASES:
         batch = base["kind"] in BATCH_KINDS
         sp = list(base["shape"])
         nd = len(sp) + (2 if batch else 1)
@@ -1996,6 +2333,15 @@ def check_batch(b, cls, ids, C, shape, dt, G, axes, kindname: str):
 
 
 def run_constructors(case):
+    """Builders read their inputs: afterwards every image / batch given to them is as it was (grids, axes, data)."""
+    track: List[tuple] = []
+    info = _run_constructors(case, track)
+    for obj, before, plain in track:
+        check_operand_unchanged(obj, before, plain, case["what"], "input")
+    return info
+
+
+def _run_constructors(case, track: List[tuple]):
     from deepali.core import Axes
     from deepali.data import FlowField, FlowFields, Image, ImageBatch
     from deepali.data.collate import collate_samples
@@ -2018,13 +2364,17 @@ def run_constructors(case):
         c = D if fl else case["C"]
         d = item_data(j, c, shape, dt)
         g = pool.grid(j)
-        return FlowField(d, g, Axes(ax)) if fl else Image(d, g)
+        obj = FlowField(d, g, Axes(ax)) if fl else Image(d, g)
+        track.append((obj, operand_state(obj), d.clone()))
+        return obj
 
     def batch(ids, fl=flow, ax=axes):
         c = D if fl else case["C"]
         d = torch.stack([item_data(j, c, shape, dt) for j in ids], 0)
         gs = [pool.grid(j) for j in ids]
-        return FlowFields(d, gs, Axes(ax)) if fl else ImageBatch(d, gs)
+        obj = FlowFields(d, gs, Axes(ax)) if fl else ImageBatch(d, gs)
+        track.append((obj, operand_state(obj), d.clone()))
+        return obj
 
     def check_not_relabelled(b, ids, axes_of_entry, kindname):
         """A flow-field result must not hold the unchanged vectors of an item under another axes label."""
@@ -2045,13 +2395,17 @@ def run_constructors(case):
             M = m.matrix(axes_of_entry[i], b.axes().value)[:D, :D]
             src = item_data(j, D, shape, dt).double().numpy()
             expect = np.einsum("ab,b...->a...", M, src)
-            tol = 64 * 2.0 ** -23 * max(1e-30, float(np.abs(M).max()) * float(np.abs(src).max()))
+            # a direction matrix that is not exactly orthonormal (float32 rounding; one entry perturbed by 2^-17 in 'pert'
+            # plans) makes "the" vector map ambiguous by that defect: its inverse and its transpose differ by |R R^T - I|
+            Rd = g.direction().double().numpy()
+            defect = float(np.abs(Rd @ Rd.T - np.eye(D)).max())
+            tol = (64 * 2.0 ** -23 + 2.0 * defect) * max(1e-30, float(np.abs(M).max()) * float(np.abs(src).max()))
             if float(np.abs(data[i].double().numpy() - expect).max()) > tol:
                 raise Violation(f"axes_relabelled:{kindname}",
                                 f"entry {i} does not hold the vectors of its flow field (axes {axes_of_entry[i]}) "
                                 f"expressed w.r.t. the result's axes {b.axes().value}")
 
-    labels = [f"what={what}", f"flow={flow}", f"D={D}"] + plan_labels(plan, 6)
+    labels = [f"what={what}", f"flow={flow}", f"D={D}"] + plan_labels(plan, 6, G)
     nt = False
     if what == "from_images" and case.get("mixed_axes"):
         ids = case["ids"]
@@ -2228,6 +2582,19 @@ def selftest():
                     assert all(q[o] == base[o] for o in ("size", "center", "spacing", "direction", "ac") if o != what)
     nd = narrow_desc(geo_desc(1, (3, 4), False, True), 1, 0, 3)
     assert nd["center"] == geo_desc(1, (3, 4), False, True)["center"] and nd["derived"] and nd["ac"] is False
+    # grids with a history: the generator yields what it claims (right size(), fractional stored size where announced), and
+    # the constructed twin differs from the derived grid in the stored size only (so Grid.__eq__ tells them apart)
+    for ac in (False, True):
+        base = geo_desc(1, (3, 4), ac, True)
+        for hist, stored in (({"kind": "down", "par": [1, 1], "pac": ac}, [3.5, 2.5]), ({"kind": "down", "par": [0, 1], "pac": ac, "via": "image"}, [4.0, 2.5]),
+                             ({"kind": "down2", "par": [1, 3], "pac": ac}, [3.75, 2.25]), ({"kind": "resample", "par": [1, 0], "pac": ac}, None),
+                             ({"kind": "flag", "par": [0, 0], "pac": ac}, [4.0, 3.0])):
+            g, t = make_item_grid(base, hist), make_item_grid(base, hist, True)
+            d = snap_desc(g)
+            assert d["size"] == [4, 3] and d["ac"] == ac and (stored is None or d["fsize"] == stored) and (hist["kind"] == "flag") != is_fractional(d)
+            assert grid_slots(g)[1:] == grid_slots(t)[1:] and list(g.size()) == list(t.size()) and not is_fractional(snap_desc(t))
+            assert (g == t) == (hist["kind"] == "flag") and grid_mismatch(make_item_grid(base, hist), dict(d)) is None
+            assert grid_mismatch(t, d) is None or "stored size" in grid_mismatch(t, d)
 
 
 def _nt_program(case):
@@ -2239,13 +2606,17 @@ FACETS = [
           rule="initial ImageBatch/FlowFields (N in 1..4) or Image/FlowField whose item grids follow a drawn grid plan (distinct "
                "geometries with per-item align_corners; or items related to an earlier item: same geometry with the other "
                "align_corners, the same Grid object, an equal-valued distinct Grid, one attribute perturbed below the tolerance of "
-               "Grid.__eq__; optional rotation), C in 1..3, spatial sizes 1..4, D in {2,3}; 1-3 ops drawn shape-aware from the grammar "
+               "Grid.__eq__, the constructed integer twin of a derived grid; optional rotation; half of the geometries derived by "
+               "Grid/Image.downsample of odd sizes, downsample(2), resample, align_corners(flag): fractional stored sizes in about 1/3 "
+               "of the cases), C in 1..3, spatial sizes 1..4, D in {2,3}; 1-3 ops drawn shape-aware from the grammar "
                "incl. append/from_images/batch() on intermediate results (simulated on the plain twin while drawing; ops plain torch "
                "rejects are replaced by clone); the wrapped data is dense (50%) or a view of a larger buffer (offset 20%, strided / "
                "transposed / cropped 10% each), 1 in 6 objects requires grad; after an op whose plain result is a view of its input "
                "(and first, for view-backed objects) the next op is copy-like with probability 1/2; plus a deterministic survey of "
-               "every call form on 21 fixed objects (2 with shared-geometry grid plans, 10 view-backed / requiring grad) and the "
-               "cross product (every view-returning survey op) x (every copy-like call form) on 11 objects; non-trivial = N >= 2 and "
+               "every call form on 25 fixed objects (2 with shared-geometry grid plans, 10 view-backed / requiring grad, 4 whose grids "
+               "have a history with fractional stored sizes), the cross product (every view-returning survey op) x (every copy-like "
+               "call form) on 15 objects (quick: 6) and (every copy mechanism) x (every op using the copy as one of several operands) "
+               "on 8 objects (quick: 5); non-trivial = N >= 2 and "
                "some op that reorders/selects/splits/joins along dim 0 returned a deepali type",
           quick=2000, thorough=30000, shards=16, quick_shards=4, nontrivial=_nt_program,
           enumerate=survey_cases, exhaustive_tiers=("quick", "thorough")),
